@@ -1140,16 +1140,9 @@ func c19Partition(r *Run, ic *iterCopy) []string {
 				}
 			}
 		}
-	} else if bo, ok := g.(*ssa.BinOp); ok && bo.Op == token.QUO && nv(bo.Y) == size {
-		// (Len + size - 1) / size
-		if a, ok := bo.X.(*ssa.BinOp); ok && a.Op == token.SUB {
-			if c, ok := a.Y.(*ssa.Const); ok && c.Value != nil && constant.Compare(c.Value, token.EQL, constant.MakeInt64(1)) {
-				if s, ok := a.X.(*ssa.BinOp); ok && s.Op == token.ADD && ((isLen(s.X) && nv(s.Y) == size) || (isLen(s.Y) && nv(s.X) == size)) {
-					div, ceil = true, true
-				}
-			}
-		}
 	}
+	// ((Len + size - 1) / size is NOT accepted as the rounded-up quotient: the sum of two caller-controlled
+	// ints wraps for lengths near the largest int - an array of zero-sized elements can be that long)
 	check("div", div, "group size from Len()/size")
 	check("ceil", ceil, "rounded up when the division leaves a remainder")
 	// appended in order: the Slice value goes (through the variadic slice) into append(groups, ...), whose
